@@ -72,9 +72,11 @@ def oracle(c, out, scales):
         if math.isnan(a) or math.isnan(k):
             return None, "NaN"
         want = {"scalar_mul_l": k * a, "scalar_mul_r": a * k, "scalar_div": (a / k) if k != 0 else None}[c["op"]]
-        if want is None or math.isnan(want):
-            return None, "nan"
-        return (rgen.f64_bits(r) != rgen.f64_bits(want)), "%s: %r, amount type gives %r" % (c["op"], r, want)
+        if want is None:
+            return None, "zero divisor"
+        if math.isnan(want):
+            return (not math.isnan(r)), "%s of %r and %r: %r, amount type gives NaN" % (c["op"], a, k, r)
+        return (rgen.f64_bits(r) != rgen.f64_bits(want)), "%s of %r and %r: %r, amount type gives %r" % (c["op"], a, k, r, want)
     from engine.mirsmt.theories import round_dec18
     if c["op"] == "scalar_div" and k == 0:
         return None, "zero"
@@ -84,7 +86,16 @@ def oracle(c, out, scales):
 
 def probes2(c):
     out = E.probe_amounts_2(c)
+    if c["backend"] == "f64":
+        sp = [-3.0, float("inf"), float("-inf"), -0.0, 0.0, 5e-324, 1.7976931348623157e308, 1e-310]
+        ks = [0.0, -0.0, 1.0, float("inf"), 1e-310, 3.0]
+        out = [[rgen_bits(x), rgen_bits(y)] for x in sp for y in ks] + out
     return out
+
+
+def rgen_bits(x):
+    from engine.replay import gen as rgen
+    return rgen.f64_bits(x)
 
 
 def kani_part(report, tier):
